@@ -50,3 +50,21 @@ Theorem C07_no_shrink : forall o i sch r,
   Z.of_nat (length (i_shards i)) <= r.
 Proof. exact c07_no_shrink. Qed.
 Print Assumptions C07_no_shrink.
+
+(* non-vacuity: three shards, max-idle-time 60 s; shard 0 holds a target, shard 1 has been idle for 1000 s, shard 2 has
+   been idle for 1000 s as well but is not in sync (its configuration hash differs and the push fails): the hypotheses of
+   C07_keeps_used hold for k = 2, and the only request is 3 although two idle tail shards have expired; with shard 2 in
+   sync the request is 1 *)
+Definition kx_stat : cstat := {| c_state := Normal; c_health := Good; c_series := 10; c_total := 10; c_times := 9 |}.
+Definition kx_shard (tars : amap cstat) (idle : option Z) (hash_ok : bool) : shard_in :=
+  {| sh_ready := true; sh_status := Some tars;
+     sh_rt1 := Some {| r_head := 10; r_proc := 10; r_hash_ok := hash_ok; r_idle := idle |};
+     sh_push_ok := false; sh_rt2 := None; sh_post_ok := true |}.
+Definition kx_o : opts := {| max_head := 0; max_proc := 1000; max_shard := 5; min_shard := 1; max_idle := 60; disable_alleviate := false |}.
+Definition kx_i (sync2 : bool) : input :=
+  {| i_shards := [kx_shard [(7%N, kx_stat)] None true; kx_shard [] (Some 1000) true; kx_shard [] (Some 1000) sync2];
+     i_active := [(7%N, 0%N)]; i_explore := []; i_scale1_ok := true |}.
+Example C07_keeps_used_example :
+  insync (kx_i false) 2 = false /\ o_scales (cycle kx_o (kx_i false) []) = [3] /\
+  insync (kx_i true) 2 = true /\ o_scales (cycle kx_o (kx_i true) []) = [1].
+Proof. vm_compute. repeat split; reflexivity. Qed.
